@@ -31,6 +31,7 @@ var fuzzTargets = []*fuzzTarget{
 	{"FuzzSpacePayload", "space"},
 	{"FuzzSnappy", "snappy"},
 	{"FuzzHandshake", "handshake"},
+	{"FuzzPubsub", "pubsub"},
 }
 
 // selector byte: low 5 bits entry-point variant, high 3 bits fixture variant
@@ -126,3 +127,4 @@ func FuzzLdiffRemote(f *testing.F)  { fuzzRun(f, fuzzTargets[7]) }
 func FuzzSpacePayload(f *testing.F) { fuzzRun(f, fuzzTargets[8]) }
 func FuzzSnappy(f *testing.F)       { fuzzRun(f, fuzzTargets[9]) }
 func FuzzHandshake(f *testing.F)    { fuzzRun(f, fuzzTargets[10]) }
+func FuzzPubsub(f *testing.F)       { fuzzRun(f, fuzzTargets[11]) }
